@@ -244,3 +244,7 @@ mod tests {
         assert_eq!(res.ok_val(), Some(json!(false)));
     }
 }
+
+#[cfg(kani)]
+#[path = "/verif/kani/test_function.rs"]
+mod verif_kani;
